@@ -5,7 +5,10 @@ import JS.Props.C08
 import JS.Props.C09
 import JS.Props.C10
 import JS.Props.C12
+import JS.Props.C13
 import JS.Props.C14
 import JS.Props.C15
 import JS.Props.C17
+import JS.Props.C18
+import JS.Props.C19
 import JS.Props.C20
